@@ -1212,7 +1212,8 @@ def r7b_negative_lookahead(a, tier):
             table.setdefault(body, set()).add((o.kind, fam))
         rep.add({'fn': fn.qualname, 'outcomes': {k: sorted(v) for k, v in sorted(table.items())}})
         m = table.get('body:matched', set())
-        if not m or any(k != 'raise' or fam not in ('failedparse',) for k, fam in m):
+        # (the construction of the failure may itself be summarised as able to raise something wider: any raise is 'not a success')
+        if not m or any(k != 'raise' for k, fam in m) or not any(fam == 'failedparse' for k, fam in m):
             rep.fail(fn.qualname, 'neglook:match-accepted', f'{fn.qualname}: when the body matches the outcomes are {sorted(m)}; required: a FailedParse '
                      f'is raised (otherwise !e succeeds where e matches)', fn.loc)
         f_ = table.get('body:failed', set())
